@@ -41,7 +41,15 @@ func (d *dest) outcome(p []byte) (int, error) {
 	}
 	switch o {
 	case 1:
-		return 0, d.errs[k%len(d.errs)]
+		// an error, whatever count comes with it: none, the full length (a sync that failed after the write),
+		// or half - by destination and call
+		switch (d.id + k) % 3 {
+		case 0:
+			return 0, d.errs[k%len(d.errs)]
+		case 1:
+			return len(p), d.errs[k%len(d.errs)]
+		}
+		return len(p) / 2, d.errs[k%len(d.errs)]
 	case 2:
 		// a short write without an error: one byte short, nothing at all, or half - by destination and call
 		switch (d.id + k) % 3 {
@@ -111,7 +119,7 @@ func main() {
 	defer r.CrashGuard()
 	defer r.Watch()()
 	r.Rule = "one evaluation = one history: a destination shape (1-3 destinations of kinds plain/LevelWriter/FilteredLevelWriter, or a single direct writer), a vector of event levels, and one complete assignment of {ok,error,short write} to every (destination,event); all assignments are enumerated; distinct = distinct (shape, levels, per-destination call log, ErrorHandler log); non-trivial = at least one injected fault"
-	r.Assumptions = []string{"destinations are synchronous fakes; an error outcome returns (0, err), a short write returns (len-1, nil), (0, nil) or (len/2, nil) in rotation", "events: 4 levels {debug, info, error, nolevel}, up to 3 (quick) / 4 (thorough) events per history"}
+	r.Assumptions = []string{"destinations are synchronous fakes; an error outcome returns (0, err), (len, err) or (len/2, err) in rotation, a short write returns (len-1, nil), (0, nil) or (len/2, nil) in rotation", "events: 4 levels {debug, info, error, nolevel}, up to 3 (quick) / 4 (thorough) events per history"}
 
 	type shape []string
 	shapes2 := []shape{}
